@@ -105,6 +105,11 @@ def run_rt(pid, tier, seed, prop_module, audit_file, checker_cmd, profiles, inst
     c.assumptions += list(assumptions)
     if extra_after is not None:
         extra_after(c, cases, mine)
+    # the targeted corpus: members, declared namespaces and facet constructors of hand-written inputs against their reviewed golden
+    cf, ncorpus = st.corpus_failures()
+    c.cov["targeted_corpus"] = {"cases": ncorpus, "differ_from_reviewed_golden": len(cf)}
+    for cls, msg, case in cf[:3]:
+        c.violation(st.save_replay(c, case, msg, {"class": cls}))
     if build_problems:
         c.violation({"kind": "oracle", "what": "a batch of emitted code with its round-trip driver does not build", "errors": build_problems[0]["build_errors"], "tail": build_problems[0]["tail"][-800:]}, no_input=False)
     if mine:
